@@ -33,6 +33,7 @@ ASSUMPTIONS = ['a variable whose i/o type is not declared counts as an output (d
 REAL = common.REAL_ALL
 STUBS = common.STUBS_ALL
 ENVELOPE_RULES = ['memory-past-above-delayed (F08) for pastified online monitors']
+INTERLEAVING_MEASURE = 'distinct (monitor kind, mode, number of updates or batches) tuples'
 PROBES = ['pastified', 'modular_specification', 'predicate_mixes_input_and_output', 'insensitive_predicate_present', 'sensitive_predicate_present', 'standard_with_declarations',
           'vacuity', 'dense_offline', 'dense_online', 'discrete_offline', 'discrete_online', 'predicate_at_equality']
 
@@ -204,6 +205,7 @@ def evaluate(sc, desc, r):
 def run(sc):
     r = Result()
     r.faults.update(sc.get('fired') or {})
+    r.interleavings.add('%s|%s|%s' % (sc.get('kind'), sc.get('mode', ''), sc.get('nbatches') or sc.get('n')))
     if sc.get('nbatches', 1) > 1:
         r.faults['batch_split'] += sc['nbatches'] - 1
     dense = sc['kind'] == 'ct'
